@@ -26,6 +26,8 @@ import contextlib
 import io
 import os
 
+from .rebind import rebind
+
 
 @contextlib.contextmanager
 def _quiet():
@@ -78,8 +80,11 @@ class FakeConn:
         self.inbuf = b""          # bytes available to recv_into for the current read event
         self.eof = True           # after inbuf: EOF (short read) -- a peer never blocks the manager in the fake
         self.read_error: Optional[str] = None    # "hdr" | "pay": raise ConnectionResetError at that recv
-        self.fail_write: Optional[str] = None    # "hdr": first sendall of a message fails; "pay": the second one
-        self._parity = 0
+        # "hdr": the write that starts a frame fails; "pay": the header goes out, what follows it does not
+        self.fail_write: Optional[str] = None
+        self._in_frame = False                   # a header has been written, (the rest of) its payload is outstanding
+        self._remaining: Optional[int] = None    # payload bytes outstanding (None: "the next write is the payload")
+        self._empty_payload_recorded = False
         self._recv_calls = 0
 
     # --- socket API used by manager.py -------------------------------------------------
@@ -112,20 +117,81 @@ class FakeConn:
         self.inbuf = self.inbuf[n:]
         return n
 
+    def _declared(self, hdr: bytes) -> Optional[int]:
+        """num_data_bytes of a whole header in the manager's layout (None: not a whole header / layout unknown)"""
+        H = getattr(self.world, "hdr_cls", None)
+        if H is None or len(hdr) != self.world.hdr_size:
+            return None
+        return int(H.from_buffer_copy(hdr).num_data_bytes)
+
+    def _fail(self):
+        self._in_frame, self._remaining = False, None
+        self.world.events.append(("WF", self.uid))
+        raise BrokenPipeError(errno.EPIPE, "Broken pipe")
+
     def sendall(self, data, flags=0):
+        """One event ("W", uid, bytes) per call, in call order.  How the code cuts a frame into writes is its own business
+        (header and payload in two calls, in one, an empty payload written or not): the failure modes are defined on the
+        byte stream — "hdr": the write that starts a frame fails and nothing of the frame goes out; "pay": the frame's
+        header goes out and nothing after it (a real `sendall` can fail after part of the data has been sent)."""
         if self.closed:
             raise OSError(errno.EBADF, "Bad file descriptor")
-        if flags & getattr(_socket, "MSG_DONTWAIT", 0x40) and len(data) > 8:
+        buf = bytes(data)
+        if flags & getattr(_socket, "MSG_DONTWAIT", 0x40) and len(buf) > 8:
             # a non-blocking send may find the buffer full at any byte: half of the data goes out, then EAGAIN
-            self.world.events.append(("W", self.uid, bytes(data[:len(data) // 2])))
+            self.world.events.append(("W", self.uid, buf[:len(buf) // 2]))
             raise BlockingIOError(errno.EAGAIN, "Resource temporarily unavailable")
-        first = self._parity == 0
-        self._parity ^= 1
-        if (self.fail_write == "hdr" and first) or (self.fail_write == "pay" and not first):
-            self._parity = 0
-            self.world.events.append(("WF", self.uid))
-            raise BrokenPipeError(errno.EPIPE, "Broken pipe")
-        self.world.events.append(("W", self.uid, bytes(data)))
+        hs = getattr(self.world, "hdr_size", None)
+        if self._in_frame:
+            # (part of) the payload of the frame whose header is out
+            if self.fail_write == "pay":
+                self._fail()
+            self.world.events.append(("W", self.uid, buf))
+            if self._remaining is None:
+                self._in_frame = False
+            else:
+                self._remaining -= len(buf)
+                if self._remaining <= 0:
+                    self._in_frame, self._remaining = False, None
+            return
+        if not buf:
+            # an empty write between frames: nothing to fail on.  After the header of a frame without payload it is that
+            # frame's (empty) payload, which is on record already
+            if self._empty_payload_recorded:
+                self._empty_payload_recorded = False
+            else:
+                self.world.events.append(("W", self.uid, buf))
+            return
+        self._empty_payload_recorded = False
+        if self.fail_write == "hdr":
+            self._fail()
+        if hs is not None and len(buf) > hs:
+            # header and payload (or several frames) handed over in one call
+            if self.fail_write == "pay":
+                self.world.events.append(("W", self.uid, buf[:hs]))
+                self._fail()
+            self.world.events.append(("W", self.uid, buf))
+            pos = 0
+            while len(buf) - pos >= hs:
+                n = max(0, self._declared(buf[pos:pos + hs]) or 0)
+                if len(buf) - pos < hs + n:
+                    self._in_frame, self._remaining = True, hs + n - (len(buf) - pos)
+                    break
+                pos += hs + n
+            return
+        # a write of at most one header: the header of a frame on its own
+        declared = self._declared(buf)
+        self.world.events.append(("W", self.uid, buf))
+        if declared == 0:
+            # a frame without payload is whole (an empty write may follow, or not): "pay" fails here, the header is out;
+            # otherwise the empty payload goes on record now, so that the events do not depend on whether the code
+            # bothers to write nothing
+            if self.fail_write == "pay":
+                self._fail()
+            self.world.events.append(("W", self.uid, b""))
+            self._empty_payload_recorded = True
+            return
+        self._in_frame, self._remaining = True, None
 
     def close(self):
         if not self.closed:
@@ -218,6 +284,8 @@ class Clock:
     def perf_counter(self):
         return self.t
 
+    monotonic = perf_counter
+
     def time(self):
         return 1.7e9 + self.t
 
@@ -237,6 +305,8 @@ class World:
         self.next_uid = 0
         self.listen = FakeListen(self)
         self.clock = Clock()
+        self.hdr_cls = None          # the manager's header class and its size (make_manager): framing of the byte streams
+        self.hdr_size: Optional[int] = None
 
 
 class ScriptedSelect:
@@ -299,9 +369,8 @@ def make_manager(timecode: bool = False, log_level: int = 100, send_msg_timing: 
     import pyrtma.manager as M
 
     world = World()
-    M.socket = SocketShim(world)
-    M.time = world.clock
-    M.random = NoShuffle()
+    # whatever the import style of manager.py (`import time` / `from time import perf_counter` / aliases): harness/rebind.py
+    rebind(M, {"socket": SocketShim(world), "time": world.clock, "random": NoShuffle()})
     with _quiet():
         mgr = M.MessageManager(ip_address="127.0.0.1", port=7111, timecode=timecode, log_level=log_level,
                                debug=debug, send_msg_timing=send_msg_timing)
@@ -309,6 +378,13 @@ def make_manager(timecode: bool = False, log_level: int = 100, send_msg_timing: 
     try:
         mgr.logger.enable_console = False
     except Exception:
+        pass
+    try:
+        import ctypes
+        from pyrtma.header import get_header_cls
+        world.hdr_cls = get_header_cls(timecode)
+        world.hdr_size = ctypes.sizeof(world.hdr_cls)
+    except Exception:  # noqa: BLE001 -- without it every write of at most a header starts a two-call frame (as before)
         pass
     rev = order == "rev"
     mgr.subscriptions = defaultdict(lambda: OrderedSet(rev))
@@ -325,7 +401,7 @@ def run_manager(rounds: List[Dict[str, Any]], **kw) -> Dict[str, Any]:
     class _Sel:
         select = staticmethod(ss.select)
 
-    M.select = _Sel
+    rebind(M, {"select": _Sel})
     crash = None
     try:
         with _quiet():
